@@ -1,6 +1,7 @@
 package multiparty
 
 import (
+	"fmt"
 	"io"
 	"slices"
 
@@ -271,6 +272,16 @@ func (ekg RelinearizationKeyGenProtocol) GenShareRoundTwo(ephSk, sk *rlwe.Secret
 
 // AggregateShares combines two RelinearizationKeyGen shares into a single one.
 func (ekg RelinearizationKeyGenProtocol) AggregateShares(share1, share2 RelinearizationKeyGenShare, shareOut *RelinearizationKeyGenShare) {
+
+	// Sanity check: the method has no error result, mismatched shares must not be combined.
+	if share1.LevelQ() != share2.LevelQ() || share1.LevelQ() != shareOut.LevelQ() ||
+		share1.LevelP() != share2.LevelP() || share1.LevelP() != shareOut.LevelP() ||
+		share1.Degree() != share2.Degree() || share1.Degree() != shareOut.Degree() ||
+		share1.BaseTwoDecomposition != share2.BaseTwoDecomposition || share1.BaseTwoDecomposition != shareOut.BaseTwoDecomposition ||
+		!slices.Equal(share1.BaseTwoDecompositionVectorSize(), share2.BaseTwoDecompositionVectorSize()) ||
+		!slices.Equal(share1.BaseTwoDecompositionVectorSize(), shareOut.BaseTwoDecompositionVectorSize()) {
+		panic(fmt.Errorf("cannot AggregateShares: shares do not match (level, degree or decomposition)"))
+	}
 
 	levelQ := share1.LevelQ()
 	levelP := share1.LevelP()
